@@ -20,6 +20,8 @@ MUTANTS = [
     {"name": "revert-4a77e64-fieldfirst-case-variants", "revert": "4a77e64", "props": ["C06"]},
     {"name": "revert-f57c67c-ignore_required-defaults", "revert": "f57c67c", "props": ["C06"]},
     {"name": "c06-datafirst-compares-parsed-with-raw", "props": ["C06"], "edits": [{"file": "utype/parser/base.py", "old": "                    if provided[name] != value:", "new": "                    if result.get(name, value) != value:"}]},
+    {"name": "revert-3f17af4-datafirst-spurious-absence", "props": ["C10"], "edits": [{"file": "utype/parser/base.py", "old": "            if name in result or name in attempted:", "new": "            if name in result:"}]},
+    {"name": "c10-handle_error-drops-absence-when-collecting", "props": ["C10"], "edits": [{"file": "utype/parser/options.py", "old": "        self.errors.append(e)\n        if force_raise or not self.options.collect_errors:", "new": "        if not (self.options.collect_errors and type(e).__name__ == 'AbsenceError' and self.errors):\n            self.errors.append(e)\n        if force_raise or not self.options.collect_errors:"}]},
     # ---- C01 ------------------------------------------------------------------------------
     {"name": "c01-seq-first-element-unconverted", "props": ["C01"], "edits": [{"file": R, "old": """                try:
                     result.append(
